@@ -550,7 +550,7 @@ func concScenario(sc concScen, scratch string) *vexp.Scenario {
 					*out = strings.Join(o, ",")
 				}
 				var pre string
-				run(0, sc.Pre, &pre)
+				vrt.Quiet(func() { run(0, sc.Pre, &pre); vrt.Sleep(time.Millisecond); vrt.WaitIdle() })
 				done := make([]bool, len(sc.Threads))
 				outs = make([]string, len(sc.Threads))
 				for i, prog := range sc.Threads {
@@ -566,9 +566,10 @@ func concScenario(sc concScen, scratch string) *vexp.Scenario {
 						vrt.Block("join", func() bool { return done[i] })
 					}
 				}
-				// everything released: let the TTL pass and check reclamation
+				// everything released: let the TTL pass, let the expiry callbacks finish, then check reclamation
 				vrt.Sleep(ttl + time.Second)
 				vrt.Sleep(time.Millisecond)
+				vrt.WaitIdle()
 				if d := w.env.CacheDirs(); len(d) != 0 {
 					w.fail("cache directories remain after every layer was released and expired: %v", d)
 				}
@@ -604,10 +605,11 @@ func concScenario(sc concScen, scratch string) *vexp.Scenario {
 
 func concScens(tier string) []concScen {
 	return []concScen{
-		{Name: "resolve||resolve same layer", Threads: [][]string{{"R1", "RD"}, {"R1", "RD"}}},
-		{Name: "resolve,read || close by other holder", Pre: nil, Threads: [][]string{{"R1", "RD", "D"}, {"R1", "C"}}},
-		{Name: "held layer read || ttl expiry || re-resolve", Threads: [][]string{{"R1", "X", "RD"}, {"R1", "RD"}}},
-		{Name: "close || read", Pre: []string{"R1", "RD", "D"}, Threads: [][]string{{"R1", "RD"}, {"R1", "C"}}},
+		// the single-file layer L2 keeps executions short (a few hundred scheduling points)
+		{Name: "resolve||resolve same layer", Threads: [][]string{{"R2", "RD"}, {"R2", "RD"}}},
+		{Name: "resolve,read || close by other holder", Pre: nil, Threads: [][]string{{"R2", "RD", "D"}, {"R2", "C"}}},
+		{Name: "held layer read || ttl expiry || re-resolve", Threads: [][]string{{"R2", "X", "RD"}, {"R2", "RD"}}},
+		{Name: "close || read", Pre: []string{"R2", "RD", "D"}, Threads: [][]string{{"R2", "RD"}, {"R2", "C"}}},
 	}
 }
 
